@@ -234,6 +234,11 @@ func (w *tableWorld) Run(c *Ctx) {
 		setting.Blind.Level = -1
 		w.blind.level = -1
 	}
+	startUnset := w.focus("C07", "C12") && !startBreak && c.CfgBool("start_with_blinds_unset", 1, 4)
+	if startUnset {
+		setting.Blind.Level = 0
+		w.blind.level = 0
+	}
 	w.mon.initialBlind = w.blind
 	unit := g.bb
 	if unit == 0 {
@@ -302,6 +307,42 @@ func (w *tableWorld) Run(c *Ctx) {
 		err := eng.StartTableGame()
 		c.Logf("StartTableGame -> %v", err)
 	}
+	if startUnset {
+		// the competition service sets the blinds later; a close / release request may land right
+		// before (while the engine is retrying the first open)
+		simrt.Go(0, "blind-setter", func() {
+			st := w.adminSt
+			t1 := 2500 + st.Draw(24000)
+			gap := st.Draw(3200)
+			closeFirst := g.pauseClose && st.Chance(2, 3)
+			if closeFirst && t1 > gap {
+				simrt.Sleep(0, time.Duration(t1-gap)*time.Millisecond)
+				if st.Chance(1, 2) {
+					c.Fault("F5_close")
+					w.mon.adminEvent("close")
+					w.eng.CloseTable()
+					w.closedAtMs = c.NowMs()
+					c.Logf("CLOSE (before blinds are set)")
+				} else {
+					c.Fault("F5_release")
+					w.mon.adminEvent("release")
+					w.eng.ReleaseTable()
+					w.releasedAtMs = c.NowMs()
+					c.Logf("RELEASE (before blinds are set)")
+				}
+				simrt.Sleep(0, time.Duration(gap)*time.Millisecond)
+			} else {
+				simrt.Sleep(0, time.Duration(t1)*time.Millisecond)
+			}
+			nb := blindRec{1, g.ante, g.dealerB, g.sb, g.bb}
+			c.Fault("F5_blind_update")
+			w.mon.blindInvoke(nb)
+			w.eng.UpdateBlind(nb.level, nb.ante, nb.dealer, nb.sb, nb.bb)
+			w.blind = nb
+			w.mon.blindReturn(nb)
+			c.Logf("UPDATEBLIND %+v (first set)", nb)
+		})
+	}
 	simrt.Go(0, "auditor", w.auditor)
 	if g.admin {
 		simrt.Go(0, "admin", w.adminTask)
@@ -341,31 +382,37 @@ func (w *tableWorld) hookCallbacks() {
 	c := w.c
 	eng := w.eng
 	eng.OnTableUpdated(func(t *pt.Table) {
-		snap := cloneTable(t)
-		if snap == nil {
-			return
+		var slow int64
+		// monitors call instrumented helpers of the code under test: keep them in one atomic section
+		simrt.Atomic(func() {
+			snap := cloneTable(t)
+			if snap == nil {
+				return
+			}
+			w.seq = c.Seq()
+			w.mon.onSnapshot(snap, w.seq)
+			if w.cfg.slowSub && w.inFaultWindow() && w.netSt.Chance(1, 40) {
+				c.Fault("F8_slow_subscriber")
+				slow = int64(1 + w.netSt.Draw(3000))
+				w.mon.slowness(slow)
+			}
+			w.deliver(snap)
+		})
+		if slow > 0 {
+			simrt.Sleep(0, time.Duration(slow)*time.Millisecond)
 		}
-		w.seq = c.Seq()
-		w.mon.onSnapshot(snap, w.seq)
-		if w.cfg.slowSub && w.inFaultWindow() && w.netSt.Chance(1, 40) {
-			c.Fault("F8_slow_subscriber")
-			d := int64(1 + w.netSt.Draw(3000))
-			w.mon.slowness(d)
-			simrt.Sleep(0, time.Duration(d)*time.Millisecond)
-		}
-		w.deliver(snap)
 	})
 	eng.OnTableStateUpdated(func(ev string, t *pt.Table) {
-		w.mon.onStateEvent(ev, string(t.State.Status), t.State.GameCount)
+		simrt.Atomic(func() { w.mon.onStateEvent(ev, string(t.State.Status), t.State.GameCount) })
 	})
 	eng.OnTableErrorUpdated(func(t *pt.Table, err error) {
-		w.mon.onErrorEvent(err)
+		simrt.Atomic(func() { w.mon.onErrorEvent(err) })
 	})
 	eng.OnGamePlayerActionUpdated(func(a pt.TablePlayerGameAction) {
-		w.mon.onActionEvent(a)
+		simrt.Atomic(func() { w.mon.onActionEvent(a) })
 	})
 	eng.OnTablePlayerReserved(func(cid, tid string, ps *pt.TablePlayerState) {
-		w.mon.onReserved(ps.PlayerID, ps.Seat)
+		simrt.Atomic(func() { w.mon.onReserved(ps.PlayerID, ps.Seat) })
 	})
 	eng.OnAutoGameOpenEnd(func(cid, tid string) {
 		c.Logf("AutoGameOpenEnd")
